@@ -168,7 +168,7 @@ func runC17(c *core.Ctx) {
 		locked := constInt(c, core.ModPath+"/"+pkgLatch, "acquireLocked")
 		isEnq := isStoreTo(c, "latch.waiting", "append(*")
 		for _, r := range returnsOf(acquireSlot) {
-			cst, ok := r.Results[0].(*ssa.Const)
+			cst, ok := asConst(r.Results[0])
 			if !ok || cst.Int64() != locked {
 				continue
 			}
